@@ -84,3 +84,82 @@ def build(reg):
 
 def extra_checks(tier, seed):
     return []
+
+
+# ------------------------------------------------------------------------------------------ replay on the real code
+_HARNESS = r'''
+import json
+from autobahn.wamp.message import check_or_raise_id, check_or_raise_uri, check_or_raise_realm_name
+from autobahn.wamp.exception import ProtocolError, InvalidUriError
+case = CASE
+WS = [c for c in map(chr, range(0x30000)) if c.isspace()]
+
+def comp_ok(c, strict):
+    if not c:
+        return False
+    if strict:
+        return all(ch in "0123456789abcdefghijklmnopqrstuvwxyz_" for ch in c)
+    return all(ch not in WS and ch not in ".#" for ch in c)
+
+def uri_ok(s, strict, ale, ae):
+    parts = s.split(".")
+    if ale:
+        return all(comp_ok(c, strict) for c in parts[:-1]) and (parts[-1] == "" or comp_ok(parts[-1], strict))
+    if ae:
+        return all(c == "" or comp_ok(c, strict) for c in parts)
+    return all(comp_ok(c, strict) for c in parts)
+
+def realm_ok(s, eth):
+    A = "ABCDEFGHIJKLMNOPQRSTUVWXYZabcdefghijklmnopqrstuvwxyz"
+    T = A + "0123456789_-@."
+    if 3 <= len(s) <= 255 and s[0] in A and all(ch in T for ch in s[1:]):
+        return True
+    return bool(eth and len(s) == 42 and s[:2] == "0x" and all(ch in "0123456789abcdefABCDEF" for ch in s[2:]))
+
+v = case["value"]
+fn = case["fn"]
+if fn == "id":
+    want = type(v) is int and 0 <= v <= 2 ** 53
+    call = lambda: check_or_raise_id(v, "m"); allowed = ProtocolError
+elif fn == "uri":
+    want = (v is None and case["allow_none"]) or (type(v) is str and uri_ok(v, case["strict"], case["allow_last_empty"], case["allow_empty_components"]))
+    call = lambda: check_or_raise_uri(v, "m", case["strict"], case["allow_empty_components"], case["allow_last_empty"], case["allow_none"]); allowed = InvalidUriError
+else:
+    want = type(v) is str and realm_ok(v, case["allow_eth"])
+    call = lambda: check_or_raise_realm_name(v, "m", case["allow_eth"]); allowed = InvalidUriError
+try:
+    r = call(); got = "accepted" if r is v or r == v else "returned-other"
+except allowed:
+    got = "rejected"
+except Exception as e:
+    got = "crashed:" + type(e).__name__
+print(json.dumps({"got": got, "want": "accepted" if want else "rejected"}))
+'''
+
+
+def _val(x):
+    if isinstance(x, dict) and "bytes" in x:
+        return bytes(int(b) & 255 for b in x["bytes"] if not isinstance(b, str))
+    return x
+
+
+def replay(o):
+    from pyvc import replaylib as Rp
+    inp = o.get("inputs") or {}
+    unit = o.get("unit") or o.get("name", "")
+    fn = "id" if "check_or_raise_id" in unit else ("uri" if "check_or_raise_uri" in unit else
+                                                    ("realm" if "realm_name" in unit else None))
+    if fn is None:
+        return {"reproduced": False, "detail": "no replay harness for this unit"}
+    case = {"fn": fn, "value": _val(inp.get("value"))}
+    for k in ("strict", "allow_empty_components", "allow_last_empty", "allow_none", "allow_eth"):
+        case[k] = bool(inp.get(k))
+    if isinstance(case["value"], bytes):
+        code = _HARNESS.replace("CASE", repr(case))
+    else:
+        code = _HARNESS.replace("CASE", repr(case))
+    out = Rp.run_py(code)
+    bad = isinstance(out, dict) and out.get("got") != out.get("want")
+    return {"reproduced": bool(bad), "case": {k: (list(v) if isinstance(v, bytes) else v) for k, v in case.items()},
+            "observed": out, "detail": "the real validator called on the counterexample; the verdict is compared with a "
+                                       "hand-written (regex-free) reference of the WAMP grammar"}
